@@ -108,11 +108,13 @@ namespace M
 @[inline] def throw {α} (e : Err) : M α := fun w => (.error e, w)
 @[inline] def get : M World := fun w => (.ok w, w)
 @[inline] def modify (f : World → World) : M Unit := fun w => (.ok (), f w)
-/-- `try: x  finally: fin` -/
+/-- `pull`'s clean-up discipline (after the F8 repair):
+    `try: x  except BaseException: (try: fin  except Exception: pass); raise`  and, on the normal path, `fin` afterwards.
+    `fin` always runs; when `x` raised, ITS exception is the one reported, whatever `fin` does. -/
 @[inline] def tryFinally {α} (x : M α) (fin : M Unit) : M α := fun w =>
   match x w with
   | (.ok a, w') => (match fin w' with | (.ok _, w'') => (.ok a, w'') | (.error e, w'') => (.error e, w''))
-  | (.error e, w') => (match fin w' with | (.ok _, w'') => (.error e, w'') | (.error e', w'') => (.error e', w''))
+  | (.error e, w') => (match fin w' with | (.ok _, w'') => (.error e, w'') | (.error _, w'') => (.error e, w''))
 /-- `try: x  except: pass` -/
 @[inline] def swallow (x : M Unit) : M Unit := fun w =>
   match x w with
